@@ -22,6 +22,7 @@ EXPLANATION = (
     "(D5k) writer and reader agree on the granularity at which the notation of a saved key is chosen (per key vs once per dictionary)."
     ' Round 4: swap symmetry is tested after single-definition locals are expanded; a vectorised marginal must group by the projected outcome, not by a numeric digest of it.'
     " Round 5: preprocess_distibution_dict returns a dictionary built there on every exit; both writers store the distribution's own dictionary; the projected key stays a tuple; one-entry keys are written with a separator."
+    ' Round 6: the separator mark of one-entry outcomes is decided from the key being written (D5).'
 )
 RULE_TEXT = "instances = constructor stores, validity conjuncts, (function, parameter) purity pairs, guards, record keys; non-trivial = an obligation was evaluated; distinct by (rule, construct)"
 ASSUMPTIONS = [
